@@ -139,6 +139,10 @@ func (g *Gateway) subscriptionHandler(w http.ResponseWriter, r *http.Request) {
 		// Let event handlers deal with starting operations
 		case requests.SubStart:
 			request := subMsg.Payload
+			// start without payload
+			if request == nil {
+				return
+			}
 			request.Original = r
 
 			query, qerr := gqlparser.LoadQuery(g.schema, request.Query)
